@@ -11,6 +11,11 @@ Q_Shapes4 == { <<2, 1, 2, 2>> }
 Q3_Ints   == { -1, 0, 2 }
 Q3_Slice  == { -1, 1 }
 
+\* ints (negative too) on both sides of an ellipsis that stands for 0, 1 or 2 axes; all axes of different length
+E_Shapes  == { <<2, 3, 4, 5>>, <<4, 3, 2>> }
+E_Ints    == { -1, 1 }
+NoVals    == {}
+
 T_Shapes1 == { <<0>>, <<1>>, <<2>>, <<3>>, <<4>>, <<5>> }
 T_Ints    == -7..7
 T_Slice   == -7..7
